@@ -913,6 +913,15 @@ fn cmd_pipeline(args: &[String]) {
         let pclass = c["payload"].as_str().unwrap();
         let level = format!("{}{}", c["level"]["kind"].as_str().unwrap(), c["level"]["n"]);
         let n = if batch == 0 { 1 } else { batch };
+        let history = c["history"].as_str().unwrap_or("fresh");
+        // 40 KiB, half repetitive and half random: a damaged copy yields output before it fails
+        let prior: Vec<u8> = {
+            let mut v = b"selium ".repeat(3000);
+            let mut r = vec![0u8; 20_000];
+            rng.fill_bytes(&mut r);
+            v.extend(r);
+            v
+        };
         let raw: Vec<Vec<u8>> = (0..n).map(|i| payload(pclass, &mut rng, seed.wrapping_add(k * 7 + i as u64))).collect();
         let r = catch_unwind(AssertUnwindSafe(|| -> Result<(bool, usize), String> {
             // encode each value with the chosen codec
@@ -937,6 +946,30 @@ fn cmd_pipeline(args: &[String]) {
                 }
             }
             let cd = compressor(algo, &c["level"]);
+            // the same objects have processed something else before (a subscriber keeps one
+            // decompressor for the life of its stream); whatever that was must not matter
+            if history != "fresh" {
+                if let Some((comp, dec)) = &cd {
+                    let mut other = prior.clone();
+                    if let Ok(z) = comp.compress(Bytes::from(std::mem::take(&mut other))) {
+                        let mut z = z.to_vec();
+                        match history {
+                            "after_damaged" => {
+                                let n = z.len();
+                                z[n / 2] ^= 0x55;
+                                z[n - 1] ^= 0xff;
+                            }
+                            "after_truncated" => z.truncate(z.len().saturating_sub(6)),
+                            "after_foreign" => z = prior.iter().rev().cloned().collect(),
+                            _ => {}
+                        }
+                        let _ = catch_unwind(AssertUnwindSafe(|| dec.decompress(Bytes::from(z))));
+                    }
+                }
+                // the codecs are unit-like values; a failed decode before the real one
+                let _ = StringCodec.decode(&mut BytesMut::from(&b"\xff\xfe"[..]));
+                let _ = BincodeCodec::<Sample>::default().decode(&mut BytesMut::from(&b"\x01"[..]));
+            }
             // wire: [batch] -> [compress]
             let mut wire = if batch == 0 { encoded[0].clone() } else { encode_message_batch(encoded.clone()) };
             if let Some((comp, _)) = &cd {
@@ -965,7 +998,7 @@ fn cmd_pipeline(args: &[String]) {
             Ok(Err(e)) => ("err", 0, e),
             Err(e) => ("panic", 0, panic_message(&e)),
         };
-        log.emit("roundtrip", json!({"case": k, "algo": algo, "level": level, "payload": pclass, "codec": codec, "batch": batch,
+        log.emit("roundtrip", json!({"case": k, "algo": algo, "level": level, "payload": pclass, "codec": codec, "batch": batch, "history": history,
             "res": res, "n": nout, "why": why.chars().take(120).collect::<String>()}));
     }
     // bytes that are not valid for a codec / decompressor must be errors, never values
